@@ -82,6 +82,9 @@ def run(ctx: Ctx) -> None:
     counted_bodies(ctx, rows, ok_cases)
     carry_chain(ctx, rows, ok_cases)
     explicit_carry(ctx, rows, ok_cases)
+    zero_accumulator(ctx, rows, ok_cases)
+    from .c07 import il_temps
+    il_temps(ctx, py, cases=ok_cases, rule="C04.13", why=" - the result or flag then depends on what an earlier instruction left in that scratch register, not on the documented operands", floors=(1500, 2500))
 
 
 # ---------------------------------------------------------------------------
@@ -858,3 +861,62 @@ def explicit_carry(ctx: Ctx, rows: dict, cases: list) -> None:
                       f"opcode 0x{op:02X} ({r.name}): {what}: over the values at instruction entry C is `{cs[0][1][:260]}` ({len(cs)} cases)",
                       f"{isa.OPTABLE}:{r.ln}", il=cs[0][0].il[:8])
     ctx.instance("C04.12/explicit-carry", "add/subtract encodings computing C by explicit comparison: borrow/carry of the entry operands", n, 100)
+
+
+def zero_accumulator(ctx: Ctx, rows: dict, cases: list) -> None:
+    """Counted instructions whose Z is `accumulator == 0` after the loop (README: Z set when the whole multi-byte *result* is zero):
+    inside the loop body the accumulator is OR-ed with a term W that stands for the byte *stored* in that iteration - either the
+    stored term itself evaluated in the same state (no register it reads is written between the two statements), or a term evaluated
+    after the store that re-loads the stored cell before the address moves.  A W taken from the operands before the operation
+    (the loaded byte) gives Z of the *inputs*."""
+    n = 0
+    groups: dict[tuple, list] = collections.defaultdict(list)
+    for c in cases:
+        il = c.il_terms
+        lb = _loop_body(il)
+        if lb is None:
+            continue
+        accs = set()
+        for st in il[lb[1]:]:
+            if isinstance(st, Term) and st.ctor == "set_flag" and repr(st.args[0]) == "'Z'":
+                v = st.args[1]
+                if isinstance(v, Term) and v.ctor == "compare_equal" and isinstance(v.args[1], Term) and v.args[1].ctor == "reg" and "TEMP" in repr(v.args[1].args[1]) and ilfacts.value_of(v.args[2]) == 0:
+                    accs.add(repr(v.args[1].args[1]))
+        if not accs:
+            continue
+        body = list(enumerate(il[lb[0]:lb[1]]))
+        stores = [(i, st) for i, st in body if isinstance(st, Term) and st.ctor == "store"]
+
+        def written_between(a: int, b: int, regs: set) -> bool:
+            lo, hi = (a, b) if a < b else (b, a)
+            return any(isinstance(st, Term) and st.ctor == "set_reg" and repr(st.args[1]) in regs for i, st in body if lo < i < hi)
+
+        for acc in sorted(accs):
+            n += 1
+            ups = [(i, st) for i, st in body if isinstance(st, Term) and st.ctor == "set_reg" and repr(st.args[1]) == acc]
+            if not ups:
+                groups[("C04.14/zero-accumulator", c.opcode, "Z is taken from an accumulator the loop body never updates")].append(c)
+                continue
+            for i, st in ups:
+                v = st.args[2]
+                ws = [a for a in v.args[1:] if not (isinstance(a, Term) and a.ctor == "reg" and repr(a.args[1]) == acc)] if isinstance(v, Term) and v.ctor == "or_expr" else []
+                if len(ws) != 1:
+                    groups[("C04.14/zero-accumulator", c.opcode, "the Z accumulator is not updated as `acc | <stored byte>`")].append(c)
+                    continue
+                w = ws[0]
+                wregs = {repr(x.args[1]) for x in ilfacts.walk(w) if x.ctor == "reg"} if isinstance(w, Term) else set()
+                ok = False
+                for j, s_ in stores:
+                    addr, val = s_.args[1], s_.args[2]
+                    if repr(val) == repr(w) and not written_between(i, j, wregs) and not (i > j and any(x.ctor == "load" for x in ilfacts.walk(w))):
+                        ok = True
+                    aregs = {repr(x.args[1]) for x in ilfacts.walk(addr) if x.ctor == "reg"} if isinstance(addr, Term) else set()
+                    if i > j and isinstance(w, Term) and any(x.ctor == "load" and repr(x.args[1]) == repr(addr) for x in ilfacts.walk(w)) and not written_between(j, i, aregs):
+                        ok = True
+                if not ok:
+                    groups[("C04.14/zero-accumulator", c.opcode, "the Z accumulator collects a term that is not the byte stored in that iteration (Z would describe the operands, not the result)")].append(c)
+    for (rule, op, what), cs in sorted(groups.items(), key=lambda kv: (kv[0][0], kv[0][1])):
+        r = rows[op]
+        ctx.violation(rule, key_of(isa.INSTR_PY, f"opcode 0x{op:02X} {r.cls}", what.split(" (")[0]),
+                      f"opcode 0x{op:02X} ({r.name}): {what} ({len(cs)} cases)", f"{isa.OPTABLE}:{r.ln}", il=cs[0].il[:12])
+    ctx.instance("C04.14/zero-accumulator", "counted encodings whose Z is an accumulator test: the accumulator collects the stored byte of each iteration", n, 8)
